@@ -30,16 +30,18 @@ let op_sexp = function
   | Sv.CopyObj (a, b) -> L [A "copyobj"; A (role_name a); A (role_name b)]
   | Sv.OpenTrunc r -> L [A "opentrunc"; A (role_name r)]
   | Sv.Dump (r, _) -> L [A "dump"; A (role_name r)]
-  | Sv.Dumps (_, _) -> L [A "dumps"]
+  | Sv.Render _ -> L [A "render"]
+  | Sv.WriteText r -> L [A "write"; A (role_name r)]
 
 let mode_of = function
   | A "stdout" -> Sv.ToStdout | A "output" -> Sv.ToOutput | A "overwrite" -> Sv.ToOverwrite
   | x -> failwith ("bad out mode " ^ to_string x)
 
 let cfg_of = function
-  | L [A "set"; b; j] -> Sv.CSet (bool_of_sym b, bool_of_sym j)
+  | L [A "set"; b; j; ok] -> Sv.CSet (bool_of_sym b, bool_of_sym j, bool_of_sym ok)
   | L [A "setstream"] -> Sv.CSetStream
-  | L [A "merge"; m; b; j; n] -> Sv.CMerge (mode_of m, bool_of_sym b, bool_of_sym j, nat_of_int (int_atom n))
+  | L [A "merge"; m; b; j; n; ok] ->
+    Sv.CMerge (mode_of m, bool_of_sym b, bool_of_sym j, nat_of_int (int_atom n), bool_of_sym ok)
   | L [A "rotate"; b; c] -> Sv.CRotate (bool_of_sym b, bool_of_sym c)
   | x -> failwith ("bad cfg " ^ to_string x)
 
@@ -48,7 +50,11 @@ let fault_of = function
   | L [k; m; kd] ->
     Some { Sv.at_k = nat_of_int (int_atom k);
            f_mode = (match m with A "before" -> Sv.Before | A "mid" -> Sv.Mid | x -> failwith ("bad mode " ^ to_string x));
-           f_kind = (match kd with A "oserror" -> Sv.FOs | A "assert" -> Sv.FAssert | x -> failwith ("bad kind " ^ to_string x)) }
+           f_kind = (match kd with
+               | A "oserror" -> Sv.FOs | A "assert" -> Sv.FAssert
+               | A "typeerror" | A "valueerror" | A "recursion" -> Sv.FOther   (* Exception, neither of the two *)
+               | A "interrupt" -> Sv.FInterrupt
+               | x -> failwith ("bad kind " ^ to_string x)) }
   | x -> failwith ("bad fault " ^ to_string x)
 
 let out_sexp (o : Sv.save_out) =
@@ -73,14 +79,14 @@ let action_of = function
   | x -> failwith ("bad action " ^ to_string x)
 
 let setin_of = function
-  | L [A "setin"; usage; args; stream; backup; json; vf; loaded; must; get; nodes; check; saveto; action; apply; whole] ->
+  | L [A "setin"; usage; args; stream; backup; json; vf; loaded; must; get; nodes; check; saveto; action; apply; whole; dok] ->
     { Sc.s_usage_ok = bool_of_sym usage; s_args_ok = bool_of_sym args; s_stream = bool_of_sym stream;
       s_backup = bool_of_sym backup; s_json = bool_of_sym json; s_value_file = opt bool_of_sym vf;
       s_loaded = bool_of_sym loaded; s_must_exist = bool_of_sym must; s_get = step_of get;
       s_nodes = nat_of_int (int_atom nodes);
       s_check = opt (function L l -> List.map check_of l | x -> failwith ("bad check list " ^ to_string x)) check;
       s_saveto = opt step_of saveto; s_action = action_of action; s_apply = step_of apply;
-      s_whole_doc = bool_of_sym whole }
+      s_whole_doc = bool_of_sym whole; s_dump_ok = bool_of_sym dok }
   | x -> failwith ("bad setin " ^ to_string x)
 
 let mcode_of = function
@@ -92,11 +98,11 @@ let mfile_of = function
   | x -> failwith ("bad mfile " ^ to_string x)
 
 let mergein_of = function
-  | L [A "mergein"; usage; args; mode; backup; json; L files; stdin; cond; single; prep; outdocs] ->
+  | L [A "mergein"; usage; args; mode; backup; json; L files; stdin; cond; single; prep; outdocs; dok] ->
     { Sc.m_usage_ok = bool_of_sym usage; m_args_ok = bool_of_sym args; m_mode = mode_of mode;
       m_backup = bool_of_sym backup; m_json = bool_of_sym json; m_files = List.map mfile_of files;
       m_stdin = opt mfile_of stdin; m_condense = bool_of_sym cond; m_single = mcode_of single;
-      m_prepare = step_of prep; m_outdocs = nat_of_int (int_atom outdocs) }
+      m_prepare = step_of prep; m_outdocs = nat_of_int (int_atom outdocs); m_dump_ok = bool_of_sym dok }
   | x -> failwith ("bad mergein " ^ to_string x)
 
 (* ---- C19 ---- *)
@@ -194,7 +200,9 @@ let rotate_run_handle (files : t list) (dect : t list) (enct : t list) (layt : t
 let handle (cmd : string) (args : t list) : t option =
   match cmd, args with
   | "save", [c; s; f] -> Some (out_sexp (Sv.save (cfg_of c) (fault_of f) (fs_of s)))
+  | "save2", [c; s; f; f2] -> Some (out_sexp (Sv.save2 (cfg_of c) (fault_of f) (fault_of f2) (fs_of s)))
   | "setmain", [i; s; f] -> Some (out_sexp (Sc.set_main (setin_of i) (fault_of f) (fs_of s)))
+  | "setmain2", [i; s; f; f2] -> Some (out_sexp (Sc.set_main2 (setin_of i) (fault_of f) (fault_of f2) (fs_of s)))
   | "mergemain", [i; s; f] -> Some (out_sexp (Sc.merge_main (mergein_of i) (fault_of f) (fs_of s)))
   | "rotate", [d; next; L folded; L dect; L enct; L layt] -> Some (rotate_handle d next folded dect enct layt)
   | "rotate-run", [L files; L dect; L enct; L layt] -> Some (rotate_run_handle files dect enct layt)
